@@ -16,6 +16,7 @@ func init() {
 }
 
 func runC05(c *Ctx) {
+	runC05MaxNodeStrict(c)
 	runC05PerJobReset(c)
 	borrow(c, "O8", "C06", "O10", "cache", "a victim wrongly reported as protected is never displaced")
 	borrow(c, "O11", "C14", "O1", "addTaskIndex <-> deleteTaskIndex", "the victim filters drop a workload whose cached active-allocated count is 0: a count that drifts after an undone simulation hides a legal victim from the later actions of the cycle")
@@ -560,4 +561,42 @@ func runC05FilterNodes(c *Ctx) {
 		}
 	}
 	c.Floor("O15", "PROV topology-aware filter constructions", n, 1)
+}
+
+// runC05MaxNodeStrict (O20): the "no node of the pool is large enough" pre-filter rejects a request only when it is
+// strictly larger than the largest node's amount (or the resource exists on no node): a request EQUAL to the maximum
+// fits that node. Every rejecting exit of MaxNodeResourcesPredicate.PreFilter has established a strict comparison or a
+// failed lookup.
+func runC05MaxNodeStrict(c *Ctx) {
+	f := c.Anchor("O20", "pkg/scheduler/k8s_internal/predicates", "MaxNodeResourcesPredicate", "PreFilter")
+	if f == nil {
+		return
+	}
+	strict := func(fs FactSet) bool {
+		_, ok := fs.find(func(ft Fact) bool {
+			t := ft.T
+			if !ft.Pol && t.Op == "extract" && t.Name == "1" {
+				return true // resource not found on any node
+			}
+			if t.Op != "bin" || len(t.Args) != 2 {
+				return false
+			}
+			return (t.Name == "<" || t.Name == ">") && ft.Pol || (t.Name == "<=" || t.Name == ">=") && !ft.Pol
+		})
+		return ok
+	}
+	n := 0
+	for _, b := range f.Blocks {
+		ret, ok := b.Instrs[len(b.Instrs)-1].(*ssa.Return)
+		if !ok || len(ret.Results) != 2 {
+			continue
+		}
+		if k, isK := ret.Results[1].(*ssa.Const); isK && k.IsNil() {
+			continue
+		}
+		n++
+		c.Check(c.Fx.allPathsSatisfy(ret, strict), "O20", "RET", funcKey(f)+": a request is rejected only when it is strictly above the largest node", instrPos(ret), "strict comparison (or resource unknown) on every path to the rejection",
+			"the pre-filter rejects a request that equals the largest node's amount of a resource: a full-node workload (all NICs, max-pods=1) stays pending in allocate and in every simulation although it fits an idle node")
+	}
+	c.Floor("O20", "RET rejecting exits of the max-node-resources pre-filter", n, 4)
 }
